@@ -187,7 +187,9 @@ class Engine:
         if isinstance(s, (ast.Assign, ast.AugAssign, ast.AnnAssign, ast.Expr, ast.Pass, ast.Delete, ast.Global,
                           ast.Nonlocal, ast.Import, ast.ImportFrom, ast.FunctionDef, ast.AsyncFunctionDef, ast.ClassDef)):
             self._expr_raises(s, state, out)
-            out.normal.append(self.a.stmt(s, state))
+            nxt = self.a.stmt(s, state)
+            if nxt is not None:          # (None: the statement calls a helper that was seen through and never returns - it only raises / exits)
+                out.normal.append(nxt)
         elif isinstance(s, ast.Assert):
             self._expr_raises(s, state, out)
             ok = self.a.branch(s.test, True, state)
